@@ -444,7 +444,7 @@ json_t *jwk_export_json(const KeyTruth &k, const JwkOpts &o)
 	if (!o.key_ops.empty()) {
 		json_t *a = json_array();
 		for (auto &s : o.key_ops)
-			json_array_append_new(a, json_string(s.c_str()));
+			json_array_append_new(a, s[0] == '\x01' ? json_loads(s.c_str() + 1, JSON_DECODE_ANY, NULL) : json_string(s.c_str())); // \x01 + raw JSON: an entry that is not a string
 		json_object_set_new(j, "key_ops", a);
 	}
 	for (auto &e : o.extra) {
